@@ -29,7 +29,7 @@ LEVEL = "exploration"
 BUDGET = {"quick": 300, "thorough": 1500}
 
 SHARD = 350                 # cases per packed file
-T_ALONE = 4                 # wall seconds for one alone run; x10 on the confirming re-run
+T_ALONE = 5                 # wall seconds for one alone run; the confirming re-run gets 10x as CPU time
 T_PACKED = 20
 
 RULE = ("a case = (macro definitions, invocation text); non-trivial iff the reference model performs at least one "
@@ -48,9 +48,9 @@ def with_helpers(defs, text):
 
 
 F1_ALPHA = ["p", "q", "#", "##", "x", ",", "1"]
-F1_ARGS = {"quick": ["", "a", "a b", "1", "+", "( a , b )", "E@", "M@", '"s"', "G@"],
+F1_ARGS = {"quick": ["", "a", "a b", "1", "+", "( a , b )", "E@", "M@", '"s"', "G@", "a\nb", "\\ n", "a M@"],
            "thorough": ["", "a", "a b", "1", "+", "( a , b )", "E@", "M@", '"s"', "G@", "'c'", "\\ n", "G@ ( a )",
-                        "- 1", ".", "1.", "e", "++", "a\nb", "F@"]}
+                        "- 1", ".", "1.", "e", "++", "a\nb", "F@", "a M@", "M@ E@"]}
 F1_BOUND = {"quick": (3, 4), "thorough": (4, 5)}      # (full argument grid up to, reduced grid up to)
 F1_ARGS_REDUCED = ["", "a", "1", "E@", "a b"]
 
@@ -388,8 +388,6 @@ def va_opt_subclass(case, features):
     d0 = case[2][0]
     toks = [t.s for t in cpp.lex(d0.replace("@", ""), tolerant=True)]
     named = any(toks[i + 1] == "..." and toks[i] != "," and toks[i] != "(" for i in range(len(toks) - 1))
-    if named:
-        return "named-variadic-parameter"
     for i, t in enumerate(toks):
         if t == "__VA_OPT__" and i > 0 and toks[i - 1] in ("#", "##"):
             return "operand-of-#-or-##"
@@ -412,6 +410,8 @@ def va_opt_subclass(case, features):
                 inside.append(toks[k])
                 k += 1
         k += 1
+    if named:
+        return "named-variadic-parameter"
     params = set(toks[3:toks.index(")")]) - {",", "..."} if "(" in toks else set()
     params.add("__VA_ARGS__")
     if any(t in params or t in ("#", "##") for t in inside):
@@ -434,9 +434,14 @@ def classify(case, features, exp, status, got):
         sub = va_opt_subclass(case, features)
         if sub != "plain-content":
             return "C09|__VA_OPT__|%s|%s" % (sub, "rejected" if status != 0 else "tokens-differ")
+    objlike = d0.startswith("#define F@ ")
+    if status == 0 and objlike and "##" in got and ("paste-tokens" in features or "paste-placemarker" in features):
+        return "C09|paste|object-like-macro-body|##-not-evaluated"
     if exp and exp[0] == "#" and (status != 0 or got != exp):
         return "C09|rescan|expansion-begins-with-#-at-line-start|treated-as-directive"
     if status != 0:
+        if any(tok_kind(s) == cpp.NUM and "_" in s for s in exp):
+            return "C09|paste|pp-number-containing-underscore|rejected"
         if any(tok_kind(s) == cpp.NUM and not is_c_constant(s) for s in exp):
             return "C09|E-output|pp-number-that-is-not-a-constant|rejected"
         if "paste-both-placemarkers" in features:
@@ -445,9 +450,6 @@ def classify(case, features, exp, status, got):
     if got == join_strings_first_only(exp) and got != exp:
         return "C09|E-output|adjacent-string-literals|only-first-printed"
     dc = deviation_class(exp, got)
-    objlike = d0.startswith("#define F@ ")
-    if objlike and "##" in got and ("paste-tokens" in features or "paste-placemarker" in features):
-        return "C09|paste|object-like-macro-body|##-not-evaluated"
     if ("parameter-used-twice-expanded" in features and "builtin:__COUNTER__" in features
             and re.match(r"changed:(num|id|str)(\.(num|id|str))*(\.\.\.)?->(num|id|str)", dc)):
         return "C09|__COUNTER__|in-argument-substituted-more-than-once|expanded-per-occurrence"
@@ -468,8 +470,17 @@ def run_chibicc(chibicc, wd, text, timeout, name="c.c"):
 
 
 def confirm_hang(chibicc, wd, text, timeout):
-    st, out, err = run_chibicc(chibicc, wd, text, timeout * 10, name="hang.c")
-    return st == "timeout", st, out
+    """Re-run alone with a 10x limit, this time on CPU time (a loaded machine must not look like a hang).
+    Returns (hang, status, stdout); status None = could not be decided (harness overloaded)."""
+    with open(os.path.join(wd, "hang.c"), "w") as f:
+        f.write(text)
+    st, out, err = core.run_limited([chibicc, "-cc1", "-E", "-cc1-input", "hang.c", "hang.c"], cwd=wd,
+                                    cpu=timeout * 10, timeout=timeout * 150, limits=True)
+    if st in (-24, -9):
+        return True, st, out
+    if st == "timeout":
+        return False, None, ""
+    return False, st, out
 
 
 def split_markers(text):
@@ -505,7 +516,7 @@ def _shard(args):
     res = {"cases": 0, "judged": 0, "nontrivial_hashes": [], "skipped_undefined": {}, "oracle_disagreements": 0,
            "ref_rejected": 0, "chibicc_runs": 0, "gcc_runs": 0, "viol": [], "viol_counts": {}, "done": False,
            "undefined_termination_checked": 0, "chain_judged": 0, "features": {}, "samples": [],
-           "unmodelled": 0, "dis_samples": [], "outcomes": {}}
+           "unmodelled": 0, "dis_samples": [], "outcomes": {}, "model_errors": [], "harness_timeouts": 0}
     if time.time() > deadline:
         return res
     os.makedirs(wd, exist_ok=True)
@@ -536,6 +547,9 @@ def _shard(args):
         except (cpp.Unmodelled, cpp.LexError) as e:
             r["undef"] = "unmodelled"
             res["unmodelled"] += 1
+        except Exception as e:        # a bug in the model: finish the run, then fail as a harness error
+            r["undef"] = "model-error"
+            res["model_errors"].append("%s: %r" % (cid, e))
         recs.append(r)
         res["cases"] += 1
     valid = [r for r in recs if r["exp"] is not None]
@@ -594,6 +608,11 @@ def _shard(args):
             hang, st2, out2 = confirm_hang(chibicc, wd, r["text"], T_ALONE)
             res["chibicc_runs"] += 1
             st, out = ("hang", "") if hang else (st2, out2)
+            if st is None:
+                res["harness_timeouts"] += 1
+                r["st"] = None
+                r["got"] = None
+                continue
         r["st"] = st
         r["got"] = split_markers(out).get(r["mark"]) if st == 0 else None
         r["err"] = err[-300:] if isinstance(err, str) else ""
@@ -673,12 +692,20 @@ def _shard(args):
         text, _ = pack(rs)
         st, out, err = run_chibicc(chibicc, wd, text, T_PACKED, name="c.c")
         res["chibicc_runs"] += 1
+        if st == "timeout":
+            hang, st, out = confirm_hang(chibicc, wd, text, T_PACKED)
+            res["chibicc_runs"] += 1
+            if hang:
+                st = "hang"
         return st, out, err, text
 
     def chain_check(rs, depth=0):
         if not rs or time.time() > deadline:
             return
         st, out, err, text = run_packed(rs)
+        if st is None:
+            res["harness_timeouts"] += 1
+            return
         if st != 0:
             if len(rs) == 1:
                 return      # cannot happen: same text as the alone run (modulo nondeterminism)
@@ -779,7 +806,7 @@ def run(ctx):
     args = [(ctx.chibicc, os.path.join(ctx.work, "s%d" % i), i, work[i][1], deadline, work[i][0] == "F6") for i in order]
     results = core.pmap(_shard, args)
     tot = {"cases": 0, "judged": 0, "oracle_disagreements": 0, "ref_rejected": 0, "chibicc_runs": 0, "gcc_runs": 0,
-           "undefined_termination_checked": 0, "chain_judged": 0, "unmodelled": 0}
+           "undefined_termination_checked": 0, "chain_judged": 0, "unmodelled": 0, "harness_timeouts": 0}
     skipped = {}
     feats = {}
     outcomes = {}
@@ -813,13 +840,16 @@ def run(ctx):
             v = first[sig]
             for _ in range(n):
                 ctx.violation(sig, v["desc"], files=v["files"], replay=v["replay"])
+    merr = [e for r in results for e in r["model_errors"]]
+    if merr:
+        raise core.HarnessError("reference model raised on %d cases, e.g. %s" % (len(merr), merr[:3]))
     if unfinished:
         ctx.incomplete("%d of %d shards not finished before the deadline" % (unfinished, len(work)))
     ctx.cover(evaluations=tot["cases"], judged=tot["judged"], distinct_nontrivial=len(hashes), rule=RULE,
               skipped_undefined=sum(skipped.values()), skipped_undefined_by_reason=skipped,
               oracle_disagreements=tot["oracle_disagreements"], ref_rejected=tot["ref_rejected"],
               chibicc_runs=tot["chibicc_runs"], gcc_runs=tot["gcc_runs"], chain_judged=tot["chain_judged"],
-              undefined_termination_checked=tot["undefined_termination_checked"], model_unmodelled=tot["unmodelled"],
+              undefined_termination_checked=tot["undefined_termination_checked"], model_unmodelled=tot["unmodelled"], harness_timeouts=tot["harness_timeouts"],
               cases_per_family=fam_counts, per_family=per_fam, features_exercised=feats,
               oracle_disagreement_samples=dis[:6],
               bounds_completed={"F1": F1_BOUND[tier], "F2": F2_BOUND[tier], "F3": F3_BOUND[tier], "F4": F4_BOUND[tier],
